@@ -14,7 +14,7 @@ ROUTER_NOTE = ("Proof level holds for the router-core MODEL (coq/Router): hand-w
                "publishfilter.go as repaired by the fix: commits. The model is tied to the code (a) by go/cmd/genrouter + Router/GenConform.v "
                "(constants, meta procedure table: re-checked every run) and (b) by the correspondence run: generated histories executed by the "
                "real router in testing/synctest bubbles and by the extracted model, canonicalised observations and table sizes compared after "
-               "every op (sampling, not proof). Outside the model: payload passthru options, queue overflow, transports/serializers, goroutine "
+               "every op (sampling, not proof). Outside the model: queue overflow, transports/serializers, goroutine "
                "interleavings inside the router (C04, C07, C08, C14, C15). Trusted: Coq kernel, ExtrOcamlBasic extraction + ocaml/router/driver.ml, "
                "the harness and its canonicaliser.")
 
@@ -24,10 +24,12 @@ ROUTER = {
             "decided on histories of profile pubsub", "invariant + exact-delivery theorem over the broker model; differential histories"),
     "C02": ("dealer_wf (calls / invocations / invocationByCall in bijection) preserved by every dealer function; reply_owned, final reply consumes the "
             "call, one prompt_* lemma per trigger (unroutable, final YIELD/ERROR, callee gone incl. after a kill-mode cancel, CANCEL skip/killnowait, timer), "
-            "junk_harmless; decided on histories of profile rpc with the virtual clock", "dealer invariant + per-trigger reply theorems; differential histories with virtual time"),
+            "junk_harmless; lifted to whole histories of Realm.run in Props/HistoriesC02.v (reply monitor never fails: realm_reply_owned / realm_reply_unique, full without authorizer, "
+            "under the gate hypothesis otherwise, with the refuting history when an authorizer refuses a further chunk); decided on histories of profile rpc with the virtual clock", "dealer invariant + per-trigger reply theorems; differential histories with virtual time"),
     "C03": ("best_match_spec (exact, else longest prefix, else longest wildcard), select_spec incl. cyclic round-robin, invocation_spec (payload, ids, "
-            "receive_progress, same callee and id for chunks), answer_routing, share_rules, no_route_after_gone", "dealer routing theorems; differential histories"),
-    "C05": ("realm_wf, no_ref_after_leave (a departed session occurs in no table), served_calls_error, testaments_once, empty_when_idle; the check also "
+            "receive_progress, same callee and id for chunks), answer_routing, share_rules, no_route_after_gone; over whole histories (Props/HistoriesC03.v): invocation_ids_increase, "
+            "no_invocation_after_unregistered (further chunks excepted, with the refutation of the unexcepted wording)", "dealer routing theorems; differential histories"),
+    "C05": ("realm_wf, no_ref_after_leave (a departed session occurs in no table), served_calls_error, testaments_once, empty_when_idle; over whole histories (Props/HistoriesC05.v): ended_session_silent; the check also "
             "compares the sizes of all 16 router tables (verif hook, read inside the owning goroutines) with the model after every op and every way of ending a session",
             "lifecycle invariants; table-size snapshots vs model at every step"),
     "C10": ("for EVERY authorizer function: denied_no_trace, allowed_same, local_exempt, gate_total; decided on histories with generated decision tables "
